@@ -143,6 +143,7 @@ class IndexDefinition1n(IndexDefinition):
         keys = self._get_key_func(obj)
         if not self._index_none_values and keys is None:
             return None
+        keys = list(dict.fromkeys(keys))  # a key that is named twice must not list the object twice
         for k in keys:
             try:
                 self[k].append(obj)
